@@ -1,5 +1,6 @@
 """C01 — the feature table stays aligned with the observations under any operation history
-(tracklib/core/track.py analytical-feature methods, __setitem__, operate; operators.py; utils.addListToAF).
+(tracklib/core/track.py analytical-feature methods, __setitem__, operate; operators.py; utils.addListToAF;
+the helpers of algo/cinematics.py and algo/segmentation.py that create features; tables carried by copy / extract / slice / +).
 
 A case is a history of API calls on a fresh track of n observations. After EVERY call the harness
 observes the listed names, every column (read through the name), len(obs.features) of every
@@ -36,14 +37,16 @@ def is_nan(v):
 
 
 def is_scalar(v):
-    """a real scalar: Python int / float / bool or a 0-dimensional numpy number - not a container"""
-    return isinstance(v, (int, float, bool, np.integer, np.floating, np.bool_)) and np.ndim(v) == 0
+    """one number: Python int / float / bool / complex or a 0-dimensional numpy number - not a container"""
+    return isinstance(v, (int, float, bool, complex, np.integer, np.floating, np.bool_, np.complexfloating)) and np.ndim(v) == 0
 
 
 def canon(v):
     """value stored in a feature -> float (or a marker string for something that is not one real scalar)"""
     if not is_scalar(v):
         return "obj:%s" % type(v).__name__
+    if isinstance(v, (complex, np.complexfloating)):
+        return "complex"                   # x ** y with a negative base: one value, but not a real one (outside the model)
     return float(v)
 
 
@@ -62,9 +65,41 @@ def close_scaled(a, b):
 
 
 # ------------------------------------------------------------------------------------------
-# expressions: the harness's own parser (recursive descent, ordinary precedence) -> AST, RPN
+# names across the driver protocol: [A-Za-z0-9#]+ as it is, anything else as '|' + hex(UTF-8)
 # ------------------------------------------------------------------------------------------
-TOK = re.compile(r"\s*([A-Za-z#][A-Za-z0-9#]*|\d+|[-+*()=])")
+PLAIN = re.compile(r"^[A-Za-z0-9#]+$")
+
+
+def enc(name):
+    return name if PLAIN.match(name) else "|" + name.encode("utf-8").hex()
+
+
+def dec(tok):
+    return bytes.fromhex(tok[1:]).decode("utf-8") if tok.startswith("|") else tok
+
+
+def enc_list(names):
+    return ",".join(enc(x) for x in names) if names else "_"
+
+
+# ------------------------------------------------------------------------------------------
+# expressions: the harness's own parser (recursive descent) -> AST, RPN.
+# Surface syntax generated: names, integer literals, ( ), =, + - * / and - always parenthesised, so that
+# no precedence convention is involved - (l % r) (l ^ r) (l < r) (l > r) (l >> k) (l << k), and F{e}.
+# ------------------------------------------------------------------------------------------
+NAME_RE = r"[^\W\d_][\w#]*|#[\w#]*"
+TOK = re.compile(r"\s*(" + NAME_RE + r"|\d+|>>|<<|[-+*/^%<>(){}=])", re.UNICODE)
+OPCHARS = set("+-*/^%<>(){}=&$!@'")
+VOID_FN = ["I", "D", "LOG", "ABS", "SQRT", "DIODE", "SIGN", "EXP", "COS", "SIN", "TAN"]
+AGG_FN = ["SUM", "AVG", "MIN", "MAX", "ARGMIN", "ARGMAX"]
+ALL_FN = VOID_FN + AGG_FN + ["D2", "VAR", "STD", "MSE", "RMSE", "MAD", "MEDIAN"]
+BIN_LEVELS = [["<", ">"], ["+", "-"], ["*", "/"], ["%"], ["^"], [">>", "<<"]]
+RPN_OP = {">>": "&", "<<": "$"}
+
+
+def expr_safe(name):
+    """can the name be written in an expression (one token for the library's splitter and for ours)?"""
+    return bool(re.match(r"^(?:" + NAME_RE + r")$", name, re.UNICODE)) and name not in ALL_FN
 
 
 def tokenize(s):
@@ -80,7 +115,7 @@ def tokenize(s):
 
 
 def parse_expr(s):
-    """-> (lhs or None, ast) with ast = ('name', n) | ('num', k) | (op, l, r)"""
+    """-> (lhs or None, ast) with ast = ('name', n) | ('num', k) | (op, l, r) | ('call', F, e)"""
     toks = tokenize(s)
     lhs = None
     if "=" in toks:
@@ -98,35 +133,37 @@ def parse_expr(s):
     def atom():
         t = take()
         if t == "(":
-            e = addsub()
+            e = level(0)
             assert take() == ")"
             return e
-        if t.isdigit():
+        if t.isdigit() and t.isascii():
             return ("num", int(t))
+        if peek() == "{":
+            take()
+            e = level(0)
+            assert take() == "}"
+            return ("call", t, e)
         return ("name", t)
 
-    def mul():
-        e = atom()
-        while peek() == "*":
-            take()
-            e = ("*", e, atom())
-        return e
-
-    def addsub():
-        e = mul()
-        while peek() in ("+", "-"):
+    def level(k):
+        if k == len(BIN_LEVELS):
+            return atom()
+        e = level(k + 1)
+        while peek() in BIN_LEVELS[k]:
             o = take()
-            e = (o, e, mul())
+            e = (o, e, level(k + 1))
         return e
-    ast = addsub()
-    assert pos[0] == len(toks)
+    ast = level(0)
+    assert pos[0] == len(toks), "trailing tokens in %r" % s
     return lhs, ast
 
 
 def rpn_of(ast):
     if ast[0] in ("name", "num"):
         return [str(ast[1])]
-    return rpn_of(ast[1]) + rpn_of(ast[2]) + [ast[0]]
+    if ast[0] == "call":
+        return [ast[1]] + rpn_of(ast[2]) + ["@"]
+    return rpn_of(ast[1]) + rpn_of(ast[2]) + [RPN_OP.get(ast[0], ast[0])]
 
 
 def expr_rpn(s):
@@ -135,8 +172,33 @@ def expr_rpn(s):
     return ([lhs] + r + ["="]) if lhs is not None else r
 
 
+def ast_names(ast, out=None):
+    out = [] if out is None else out
+    if ast[0] == "name":
+        out.append(ast[1])
+    elif ast[0] == "call":
+        ast_names(ast[2], out)
+    elif ast[0] != "num":
+        ast_names(ast[1], out)
+        ast_names(ast[2], out)
+    return out
+
+
+def ast_nums(ast, out=None):
+    out = [] if out is None else out
+    if ast[0] == "num":
+        out.append(str(ast[1]))
+    elif ast[0] == "call":
+        ast_nums(ast[2], out)
+    elif ast[0] != "name":
+        ast_nums(ast[1], out)
+        ast_nums(ast[2], out)
+    return out
+
+
 def expr_names(s):
-    return [t for t in tokenize(s) if not t.isdigit() and t not in "+-*()="]
+    lhs, ast = parse_expr(s)
+    return ([lhs] if lhs is not None else []) + ast_names(ast)
 
 
 # ------------------------------------------------------------------------------------------
@@ -164,7 +226,10 @@ class Tab:
         if name == "idx":
             return [float(i) for i in range(self.n)]
         if name in self.cols:
-            return list(self.cols[name])
+            c = self.cols[name]
+            if not all(isinstance(v, float) for v in c):
+                raise Exc()                # a column holding a complex / an object: no expectation downstream
+            return list(c)
         return None
 
 
@@ -175,40 +240,144 @@ def init_col(n, kind, val):
     return l[:n] if len(l) >= n else None
 
 
-def py_add(a, b):
-    return a + b
+class Exc(Exception):
+    """the oracle's own arithmetic met a situation where ordinary arithmetic has no value (division by zero,
+    overflow, complex result, domain error) or where the expression language has no such form: no expectation"""
 
 
-def py_sub(a, b):
-    return a - b
+def _num(f):
+    def g(*a):
+        try:
+            r = f(*a)
+        except (ZeroDivisionError, OverflowError, ValueError, TypeError, IndexError):
+            raise Exc()
+        if isinstance(r, complex):
+            raise Exc()
+        return float(r)
+    return g
 
 
-def py_mul(a, b):
-    return a * b
+BOPS = {"add": _num(lambda a, b: a + b), "sub": _num(lambda a, b: a - b), "mul": _num(lambda a, b: a * b),
+        "div": _num(lambda a, b: NAN if b == 0 else a / b),            # DIVIDER: denominator 0 -> NaN
+        "pow": _num(lambda a, b: a ** b), "mod": _num(lambda a, b: a % b),
+        "above": _num(lambda a, b: a > b), "below": _num(lambda a, b: a < b)}
+SOPS = {"add": _num(lambda a, k: a + k), "sub": _num(lambda a, k: a - k), "rsub": _num(lambda a, k: k - a),
+        "mul": _num(lambda a, k: a * k), "pow": _num(lambda a, k: a ** k), "rpow": _num(lambda a, k: k ** a),
+        "mod": _num(lambda a, k: a % k), "rmod": _num(lambda a, k: k % a),
+        "above": _num(lambda a, k: a > k), "below": _num(lambda a, k: a < k),
+        "rabove": _num(lambda a, k: k > a), "rbelow": _num(lambda a, k: k < a)}
+# expression operator -> (feature o feature, feature o number, number o feature) operator kinds, by the documentation of operate()
+EXPR_B = {"+": "add", "-": "sub", "*": "mul", "/": "div", "^": "pow", "%": "mod", ">": "above", "<": "below"}
+EXPR_S = {"+": "add", "-": "sub", "*": "mul", "^": "pow", "%": "mod", ">": "above", "<": "below"}
+EXPR_SR = {"+": "add", "-": "rsub", "*": "mul", "^": "rpow", "%": "rmod", ">": "rabove", "<": "rbelow"}
+LIT = {"+": _num(lambda a, b: a + b), "-": _num(lambda a, b: a - b), "*": _num(lambda a, b: a * b),
+       "/": _num(lambda a, b: a / b), "^": _num(lambda a, b: a ** b),
+       ">": _num(lambda a, b: a > b), "<": _num(lambda a, b: a < b)}
 
 
-BOPS = {"add": py_add, "sub": py_sub, "mul": py_mul, "+": py_add, "-": py_sub, "*": py_mul}
-SOPS = {"add": py_add, "sub": py_sub, "rsub": lambda a, k: k - a, "mul": py_mul}
+def shift_col(a, k):
+    """SHIFT_CIRCULAR: y(t) = x((t - k) % n)"""
+    n = len(a)
+    if k != k or math.isinf(k):
+        raise Exc()
+    idx = [int((i - k) % n) for i in range(n)]
+    if any(j >= n for j in idx):
+        raise Exc()                        # (i - k) % n rounds up to n for a tiny negative k: no such observation
+    return [a[j] for j in idx]
+
+
+def fn_void(name, a):
+    """the unary void operators by their documentation (Operator docstring), NaN where the input is NaN"""
+    n = len(a)
+    if name == "I":                        # y(t) = y(t-1) + x(t), y(0) = 0
+        c = [0.0] * n
+        for i in range(1, n):
+            c[i] = c[i - 1] + a[i]
+        return c
+    if name == "D":                        # y(t) = x(t) - x(t-1), undefined (NaN) at t = 0
+        return [NAN] + [a[i] - a[i - 1] for i in range(1, n)]
+    if name == "ABS":                      # y(t) = |x(t)|, infinities included (fix 8378be5)
+        return [abs(v) for v in a]
+    if not finite([v for v in a if v == v]):
+        raise Exc()                        # infinities: IEEE algebra of the library's formulas, out of scope
+    f = {"LOG": lambda x: math.log(x) if x > 0 else 0.0, "ABS": abs, "SQRT": math.sqrt,
+         "DIODE": lambda x: x if x > 0 else 0.0 * x, "SIGN": lambda x: (1.0 if x >= 0 else -1.0),
+         "EXP": math.exp, "COS": math.cos, "SIN": math.sin, "TAN": math.tan}[name]
+    out = []
+    for v in a:
+        if v != v:
+            out.append(0.0 if name in ("LOG", "SIGN") else NAN)   # LOG: "0 unless x > 0"; SIGN: 1[x>=0] - 1[x<0]
+        else:
+            out.append(_num(f)(v))
+    return out
+
+
+def fn_agg(name, a):
+    v = [x for x in a if x == x]
+    tot = 0.0
+    for x in v:                            # plain left-to-right sum (Python's sum() compensates)
+        tot += x
+    if name == "SUM":
+        return tot
+    if name == "AVG":
+        if not v:
+            raise Exc()
+        return tot / len(v)
+    if not finite(v) or len(v) != len(a) or not a:
+        raise Exc()                        # NaN / infinities / empty: the sentinel conventions of the library, out of scope
+    if name == "MIN":
+        return min(a)
+    if name == "MAX":
+        return max(a)
+    if name == "ARGMIN":
+        return float(a.index(min(a)))
+    return float(a.index(max(a)))
 
 
 def eval_ast(tab, ast):
-    """-> ('s', float) | ('c', [floats]) | None when a name is unknown"""
+    """-> ('s', float) | ('c', [floats]); None when a name is unknown; raises Exc when there is no expectation"""
     if ast[0] == "num":
         return ("s", float(ast[1]))
     if ast[0] == "name":
         c = tab.read(ast[1])
         return None if c is None else ("c", c)
+    if ast[0] == "call":
+        v = eval_ast(tab, ast[2])
+        if v is None:
+            return None
+        if v[0] != "c":
+            raise Exc()                    # a function of a number: not in the language
+        if ast[1] in VOID_FN:
+            return ("c", fn_void(ast[1], v[1]))
+        if ast[1] in AGG_FN:
+            return ("c", [fn_agg(ast[1], v[1])] * len(v[1]))
+        raise Exc()
     l, r = eval_ast(tab, ast[1]), eval_ast(tab, ast[2])
     if l is None or r is None:
         return None
-    f = BOPS[ast[0]]
+    o = ast[0]
+    if o in (">>", "<<"):
+        if l[0] != "c" or r[0] != "s":
+            raise Exc()
+        return ("c", shift_col(l[1], r[1] if o == ">>" else -r[1]))
     if l[0] == "s" and r[0] == "s":
-        return ("s", f(l[1], r[1]))
+        if o not in LIT:
+            raise Exc()
+        return ("s", LIT[o](l[1], r[1]))
     if l[0] == "c" and r[0] == "c":
-        return ("c", [f(a, b) for a, b in zip(l[1], r[1])])
+        f = BOPS[EXPR_B[o]]
+        return ("c", [f(p, q) for p, q in zip(l[1], r[1])])
     if l[0] == "c":
-        return ("c", [f(a, r[1]) for a in l[1]])
-    return ("c", [f(l[1], b) for b in r[1]])
+        if o == "/":                       # documented as x(t) / arg
+            if r[1] == 0:
+                raise Exc()
+            return ("c", [_num(lambda p, k: p * (1.0 / k))(p, r[1]) for p in l[1]])
+        f = SOPS[EXPR_S[o]]
+        return ("c", [f(p, r[1]) for p in l[1]])
+    if o == "/":                           # arg / x(t)
+        return ("c", [_num(lambda q, k: (1.0 / q) * k)(q, l[1]) for q in r[1]])
+    f = SOPS[EXPR_SR[o]]
+    return ("c", [f(q, l[1]) for q in r[1]])
 
 
 def op_targets(op):
@@ -219,10 +388,18 @@ def op_targets(op):
         return {op[3] if op[3] is not None else op[2]}
     if k == "bvoid":
         return {op[4] if op[4] is not None else op[2]}
-    if k == "svoid":
+    if k in ("svoid", "sk"):
         return {op[4] if op[4] is not None else op[2]}
-    if k in ("sum", "agg"):
+    if k == "ufn":
+        return {op[3] if op[3] is not None else op[2]}
+    if k in ("sum", "agg", "aggf"):
         return set()
+    if k == "abscurv":
+        return {"ds", "abs_curv"}          # the two built-in names the helper is documented to use
+    if k == "estspeed":
+        return {"speed"}
+    if k == "seg":
+        return {op[2]}
     if k == "conv":
         return {op[3] if op[3] is not None else op[1]}
     if k in ("fft", "apply", "shiftc"):
@@ -257,6 +434,13 @@ def oracle_fft_filter(g, klen):
 
 
 def expected(tab, op):
+    try:
+        return expected_(tab, op)
+    except Exc:
+        return None
+
+
+def expected_(tab, op):
     """What a *successful* call must have done, computed directly from the documentation's meaning of the
     call on the name -> column table. Returns None when the oracle has no expectation (unknown input name,
     write to something that is not a feature ...), else a dict with
@@ -316,13 +500,13 @@ def expected(tab, op):
             return None
         kind = op[1]
         if kind == "min":
-            m = 1e300
+            m = math.inf                   # start value float('inf') (fix 68863c7)
             for v in a:
                 if v < m:
                     m = v
             e["ret"] = ("n", m)
         elif kind == "argmax":
-            m, im = -1e300, 0
+            m, im = -math.inf, 0
             for i, v in enumerate(a):
                 if v > m:
                     m, im = v, i
@@ -405,6 +589,78 @@ def expected(tab, op):
         e["cols"][name] = c
         e["ret"] = ("c", c)
         return e
+    if k == "aggf":
+        a = tab.read(op[2])
+        if a is None:
+            return None
+        e["ret"] = ("n", fn_agg(op[1], a))
+        return e
+    if k in ("sk", "ufn"):
+        out = list(op_targets(op))[0]
+        if out in RESERVED:
+            return None
+        a = [0.0] * n if (op[2] == out and out not in tab.cols and not (k == "ufn" and op[1] == "LOG")) else tab.read(op[2])
+        if a is None:
+            return None
+        if k == "ufn":
+            c = fn_void(op[1], a)
+            e["ret"] = "-" if op[1] == "LOG" else ("c", c)      # Log.execute returns nothing
+        else:
+            kv = fv(op[3])
+            if op[1] == "div":
+                if kv == 0:
+                    raise Exc()
+                c = [_num(lambda p: p * (1.0 / kv))(p) for p in a]
+            elif op[1] == "rdiv":
+                c = [_num(lambda p: (1.0 / p) * kv)(p) for p in a]
+            else:
+                c = shift_col(a, kv if op[1] == "shift" else -kv)
+            e["ret"] = ("c", c)
+        e["cols"][out] = c
+        return e
+    if k == "seg":
+        inp, out, thr = op[1], op[2], fv(op[3])
+        if out in RESERVED:
+            return None
+        if inp == out:
+            return None                    # the marker overwrites its own input while it is read: no expectation on values
+        a = tab.read(inp)
+        if a is None:
+            return None
+        e["cols"][out] = [0.0 if (v != v or v <= thr) else 1.0 for v in a]
+        return e
+    if k == "abscurv":
+        if n == 0:
+            return None
+        if "ds" in tab.cols or "abs_curv" in tab.cols:
+            return None                    # a feature with a built-in name exists: the helper reuses it, no expectation
+        if not finite(tab.X) or not finite(tab.Y):
+            return None
+        c = [0.0] * n
+        for i in range(1, n):
+            c[i] = c[i - 1] + math.hypot(tab.X[i] - tab.X[i - 1], tab.Y[i] - tab.Y[i - 1])
+        e["cols"]["abs_curv"] = c
+        e["ret"] = ("c", c)
+        return e
+    if k == "estspeed":
+        if n == 0:
+            return None
+        if "speed" in tab.cols:
+            e["ret"] = ("c", tab.read("speed"))
+            return e
+        if not finite(tab.X) or not finite(tab.Y):
+            return None
+
+        def sp(i, j):
+            dt = tab.T[i] - tab.T[j]
+            return NAN if dt == 0 else math.hypot(tab.X[i] - tab.X[j], tab.Y[i] - tab.Y[j]) / dt
+        if n == 1:
+            c = [NAN]
+        else:
+            c = [sp(1, 0)] + [sp(i + 1, i - 1) for i in range(1, n - 1)] + [sp(n - 1, n - 2)]
+        e["cols"]["speed"] = c
+        e["ret"] = ("c", c)
+        return e
     if k in ("uvoid", "bvoid", "svoid"):
         out = list(op_targets(op))[0]
         if out in RESERVED:
@@ -451,6 +707,10 @@ def expected(tab, op):
         lhs, ast = parse_expr(op[1])
         if any(nm.startswith("#") for nm in expr_names(op[1])):
             return None                    # '#' names belong to the evaluator
+        if any(t in tab.cols for t in ast_nums(ast)):
+            return None                    # a feature whose name is a number: the language is ambiguous there
+        if any(nm.startswith("#") for nm in tab.cols) and "{" in op[1]:
+            return None                    # a user feature named like a temporary: createAnalyticalFeature('#k', [value]*n) finds it and keeps its values
         v = eval_ast(tab, ast)
         if v is None:
             return None
@@ -463,6 +723,8 @@ def expected(tab, op):
             e["coord"][lhs.upper()] = col    # a number is written at every observation (fix 144a468)
             return e
         if lhs in RESERVED:
+            return None
+        if lhs.isdigit():
             return None
         e["cols"][lhs] = col
         return e
@@ -478,7 +740,9 @@ def sim_names(case):
         tg = [t for t in op_targets(op) if t not in RESERVED]
         if k == "remove":
             names = [x for x in names if x != op[1]]
-        elif k in ("create", "setitem", "addaf", "uvoid", "bvoid", "svoid", "conv", "fft", "apply", "shiftc", "rev"):
+        elif k == "abscurv":
+            names = [x for x in names if x != "ds"] + ([] if "abs_curv" in names else ["abs_curv"])
+        elif k in ("create", "setitem", "addaf", "uvoid", "bvoid", "svoid", "conv", "fft", "apply", "shiftc", "rev", "sk", "ufn", "seg", "estspeed"):
             for t in tg:
                 if t not in names:
                     names.append(t)
@@ -512,40 +776,62 @@ class P(Prop):
         ("TracklibVerif.Props.C01", "TV.C01.binaryVoid_read_back", "when ADDER/SUBSTRACTER/MULTIPLIER returns temp, the output feature reads exactly temp (created or overwritten, even if it is also an input)"),
         ("TracklibVerif.Props.C01", "TV.C01.scalarVoid_read_back", "the same for SCALAR_ADDER/SCALAR_SUBSTRACTER/SCALAR_REV_SUBSTRACTER/SCALAR_MULTIPLIER"),
         ("TracklibVerif.Props.C01", "TV.C01.unaryVoid_read_back", "the same for INTEGRATOR/DIFFERENTIATOR"),
-        ("TracklibVerif.Props.C01", "TV.C01.no_temporaries", "after operate(str) no listed name starts with '#', whether evaluation returned or raised"),
+        ("TracklibVerif.Props.C01", "TV.C01.no_temporaries", "after operate(str) no listed name starts with '#', for every table and token list (the empty string as a name included), whether evaluation returned or raised (an operator failing mid-way included)"),
+        ("TracklibVerif.Props.C01", "TV.C01.short_list_refused", "createAnalyticalFeature(new name, list shorter than the track) raises IndexError and leaves the track exactly as it was"),
+        ("TracklibVerif.Props.C01", "TV.C01.evaluate_no_new_name", "a name that is not listed, not a token of the expression and not a '#' name is not listed after the evaluation either"),
+        ("TracklibVerif.Props.C01", "TV.C01.applyVoid_read_back", "when an APPLY-based operator (RECTIFIER SQRT DIODE SIGN EXP COS SIN TAN INVERSER ..., any cell function, which may raise mid-way) returns temp, the output feature reads exactly temp"),
+        ("TracklibVerif.Props.C01", "TV.C01.scalarKind_read_back", "the same for SCALAR_DIVIDER, SCALAR_REV_DIVIDER (two operators in a row), SHIFT_CIRCULAR(_REV) and the twelve plain scalar operators"),
+        ("TracklibVerif.Props.C01", "TV.C01.agg_keeps_table", "the value-returning aggregates SUM AVG MIN MAX ARGMIN ARGMAX leave the whole table as it was, returning or raising"),
+        ("TracklibVerif.Props.C01", "TV.C01.cell_read_agrees", "every read path returns the same values: for ANY name (feature called X, E, N, the empty string ..., coordinate, t, idx) getObsAnalyticalFeature(m, i) is the i-th element of getAnalyticalFeature(m) and changes nothing"),
+        ("TracklibVerif.Props.C01", "TV.C01.carried_table_aligned", "a track handed a table with distinct names and full columns (copy, extract, slice, +) is aligned and carries exactly that table: all theorems apply to histories starting from it"),
     ]
     partial = []
     open_statements = [
-        "values: WHICH numbers an operator or an expression computes (a+b, running sums, NaN propagation, precedence) is not stated here - "
-        "the theorems say where they are written and that nothing else moves; expression values are property C02's; here they are covered by the "
-        "correspondence (model at Float = same IEEE operations) and by the oracle's direct recomputation",
+        "values: WHICH numbers an operator or an expression computes (a+b, a%b, running sums, NaN propagation, precedence) is not stated here - "
+        "the theorems hold for every interpretation of the arithmetic (Ops: any + - * / ** % < cell functions, aggregates, any exception raised mid-way) and say "
+        "where results are written and that nothing else moves; expression values are property C02's; here they are covered by the correspondence "
+        "(model at Float with CPython's float_rem / float_pow / math functions) and by the oracle's direct recomputation",
         "read-back of the result of an '=' expression under its left-hand side is proved only through the refinement (the specification table runs the "
         "same stack machine), not as a closed formula",
-        "list initialisers shorter than the track (Python raises IndexError mid-way and leaves a misaligned table) are outside OpOK: "
-        "mirrored by the model, compared in the 'malformed' stream, not covered by the theorems or the oracle",
-        "assignment to 't', 'timestamp' as an operand, operators / ^ @ & $ < > % ! in expressions, and tables that are already misaligned are outside the model",
+        "assignment to 't' (timestamps replaced by floats), 'timestamp' as an operand, the FILTER operator '!' between two features, D2 and the order-statistic "
+        "functions in expressions, a complex result of ** , and tables that are already misaligned are outside the model (the driver answers "
+        "'unsupported' and the rest of that history is not compared)",
+        "the list forms of operate (lists of input / output names) are not modelled: for the non-void and scalar families they raise TypeError "
+        "(`range(output)` on a list) before touching the table",
+        "sharing of Obs objects between a track and the tracks derived from it by extract / slice / + is outside the model (one track = one table): "
+        "the oracle observes it (finding derived-track-shares-observations)",
     ]
-    # Python leaves a misaligned table when a list initialiser is shorter than the track. DESIGN.md section 5 C01 declares
-    # this out of the property's domain; set to True to have the oracle report it (class "short-list-initialiser").
-    SHORT_LIST_IS_FINDING = False
     modelled = ("Track.createAnalyticalFeature / updateAnalyticalFeature / removeAnalyticalFeature / getAnalyticalFeature / "
                 "getObsAnalyticalFeature / setObsAnalyticalFeature / hasAnalyticalFeature / addAnalyticalFeature / __setitem__ / "
-                "setX|Y|ZFromAnalyticalFeature / operate (operator objects and str) / __applyOperation (= + - *) / __evaluateRPN / "
+                "setX|Y|ZFromAnalyticalFeature / operate (operator objects and str, with the purge incl. af[0] on the empty name) / "
+                "__applyOperation (= + - * / ^ % < > & $ @ ; '!' only its KeyError forms) / __evaluateRPN / "
                 "__evaluate (on the RPN token list) of core/track.py; utils.addListToAF; Integrator, Differentiator, Adder, "
-                "Substracter, Multiplier, ScalarAdder, ScalarSubstracter, ScalarRevSubstracter, ScalarMuliplier, Sum, Reverser of core/operators.py; "
-                "table effect only (values opaque) of Convolution, Filter_FFT, Apply / Square / Inverter, ShiftCircular and of the non-void "
+                "Substracter, Multiplier, Divider, Power, Modulo, Above, Below, ScalarAdder, ScalarSubstracter, ScalarRevSubstracter, ScalarMuliplier, "
+                "ScalarPower, ScalarRevPower, ScalarModulo, ScalarRevModulo, ScalarAbove, ScalarBelow, ScalarRevAbove, ScalarRevBelow, ScalarDivider, "
+                "ScalarRevDivider, Inverser, ShiftCircular, ShiftCircularRev, Apply and Rectifier / Sqrt / Diode / Sign / Exp / Cos / Sin / Tan, Log, "
+                "Sum, Averager, Min, Max, Argmin, Argmax, Reverser of core/operators.py; cinematics.computeAbsCurv, estimate_speed "
+                "(analytics.ds, speed), segmentation.segmentation (one feature, one threshold); the table a track receives from copy / extract / slice / +; "
+                "table effect only (values opaque) of Convolution, Filter_FFT, Square, Inverter, ShiftCircular (object form) and of the non-void "
                 "Min, Argmax, Zeros, Median, Aggregate, Equal")
-    trusted = ["operators with opaque values (CONVOLUTION, FILTER_FFT - numpy results -, SQUARE, INVERTER, SHIFT_CIRCULAR): the model is handed the list the "
+    trusted = ["operators with opaque values (CONVOLUTION, FILTER_FFT - numpy results -, SQUARE, INVERTER, SHIFT_CIRCULAR object form): the model is handed the list the "
                "implementation returned and models where it is written; the oracle recomputes the values from the operator's definition (direct sums, no FFT) "
-               "and checks that every stored cell is one real scalar",
+               "and checks that every stored cell is one number",
                "the expression parser (string preprocessing + makeRPN) is property C02's: the model receives the RPN token list computed by "
-               "the harness's own recursive-descent parser, so a parser defect shows up here as a disagreement",
+               "the harness's own recursive-descent parser (operators other than + - * are always written parenthesised, so no precedence convention "
+               "is involved), so a parser defect shows up here as a disagreement",
                "addAnalyticalFeature: the model writes through the name at every index (Python hoists the index lookup); the algorithms used are read-only",
-               "out of the model (never generated): 'timestamp' as an operand, assignment to 't', operators other than = + - * in expressions, empty names"]
-    rule = ("histories of API calls over the names a b c #0 #u (+ reserved and unknown names) on tracks of 1..4 observations, values small integers (as floats) and NaN; "
-            "every history over a 33-call alphabet to depth 3 (thorough: 4) on a 2-observation track, random histories to depth 40; "
-            "operator objects of every family (unary / binary / scalar void incl. numpy-valued results, bracket-writing REVERSER, non-void aggregates), "
-            "expressions incl. self-assignment (n=n, n=n+0, x=x) and a number assigned to a coordinate (y=4, x=1+2); a call that raises although all its operands exist and it is well formed is a failure; "
+               "Float instances of the arithmetic in the driver (Drv/C01.lean: exact fmod by integer arithmetic, CPython's float_rem / float_pow rules, libm functions)",
+               "never generated: 'timestamp' as an operand, assignment to 't', '!' , NaN thresholds of segmentation, CONVOLUTION / FILTER_FFT in the same history as "
+               "the operators whose Python arithmetic raises (numpy scalars stored by the former never raise)"]
+    rule = ("histories of API calls on tracks of 0..5 observations, values small integers (as floats) and NaN; after EVERY call: listed names, every column, every "
+            "read path (column, per observation in four forms, list forms, bracket), len(obs.features), X/Y/Z/T, outcome, returned value; after the last call each feature "
+            "also read through an operator and through an expression. Streams: every history over a 33-call alphabet to depth 3 (thorough: 4) on a 2-observation track; "
+            "random histories to depth 40 over a b c #0 #u (+ reserved and unknown names); 'names': pools of 3-5 names drawn from 33 special ones (coordinate aliases X Y Z E N U, "
+            "capitals and near-misses of the reserved names, prefixes, digits, '#', non-ASCII, blanks, operator and separator characters, built-in names ds abs_curv speed, the "
+            "empty string) used as user features through every write path; 'rich': operator objects of every family (binary / scalar / unary void incl. those whose arithmetic "
+            "raises mid-way, value-returning aggregates, computeAbsCurv, estimate_speed, segmentation) and expressions with / ^ % < > >> << and function calls; 'carry': a track built "
+            "by copy / extract / slice / + from a track with features, then a history on it, the source tracks observed before and after; 'short': a list initialiser shorter than the track in the middle of a history (refused / partial overwrite), also sprinkled in every stream; "
+            "empty track. A call that raises although all its operands exist and it is well formed is a failure; "
             "non-trivial = the history deletes (remove, '#DELETE' or re-assignment by an expression) a column that is not the last one while other features are listed")
 
     # ---------------------------------------------------------------- setup
@@ -557,9 +843,21 @@ class P(Prop):
         from tracklib.core.operators import Operator
         self.Obs, self.ObsTime, self.ENU, self.Track, self.Operator = Obs, ObsTime, ENUCoords, Track, Operator
         self.UOPS = {"int": Operator.INTEGRATOR, "dif": Operator.DIFFERENTIATOR}
-        self.BOPS = {"add": Operator.ADDER, "sub": Operator.SUBSTRACTER, "mul": Operator.MULTIPLIER}
-        self.SOPS = {"add": Operator.SCALAR_ADDER, "sub": Operator.SCALAR_SUBSTRACTER,
-                     "rsub": Operator.SCALAR_REV_SUBSTRACTER, "mul": Operator.SCALAR_MULTIPLIER}
+        O = Operator
+        self.BOPS = {"add": O.ADDER, "sub": O.SUBSTRACTER, "mul": O.MULTIPLIER, "div": O.DIVIDER, "pow": O.POWER,
+                     "mod": O.MODULO, "above": O.ABOVE, "below": O.BELOW}
+        self.SOPS = {"add": O.SCALAR_ADDER, "sub": O.SCALAR_SUBSTRACTER, "rsub": O.SCALAR_REV_SUBSTRACTER,
+                     "mul": O.SCALAR_MULTIPLIER, "pow": O.SCALAR_POWER, "rpow": O.SCALAR_REV_POWER,
+                     "mod": O.SCALAR_MODULO, "rmod": O.SCALAR_REV_MODULO, "above": O.SCALAR_ABOVE,
+                     "below": O.SCALAR_BELOW, "rabove": O.SCALAR_REV_ABOVE, "rbelow": O.SCALAR_REV_BELOW}
+        self.SKOPS = {"div": O.SCALAR_DIVIDER, "rdiv": O.SCALAR_REV_DIVIDER, "shift": O.SHIFT_CIRCULAR,
+                      "shiftr": O.SHIFT_CIRCULAR_REV}
+        self.FNOPS = {"I": O.INTEGRATOR, "D": O.DIFFERENTIATOR, "LOG": O.LOG, "ABS": O.RECTIFIER, "SQRT": O.SQRT,
+                      "DIODE": O.DIODE, "SIGN": O.SIGN, "EXP": O.EXP, "COS": O.COS, "SIN": O.SIN, "TAN": O.TAN}
+        self.AGGOPS = {"SUM": O.SUM, "AVG": O.AVERAGER, "MIN": O.MIN, "MAX": O.MAX, "ARGMIN": O.ARGMIN, "ARGMAX": O.ARGMAX}
+        from tracklib.algo.cinematics import computeAbsCurv, estimate_speed
+        from tracklib.algo.segmentation import segmentation
+        self.computeAbsCurv, self.estimate_speed, self.segmentation = computeAbsCurv, estimate_speed, segmentation
 
     # ---------------------------------------------------------------- generators
     ALPHABET = [
@@ -583,8 +881,24 @@ class P(Prop):
                 % (d, len(self.ALPHABET), len(self.ALPHABET) ** d)]
 
     NAMES = ["a", "b", "c", "#0", "#u"]
+    # every name an accessor could treat specially, and names that stress the name -> column map and the protocol:
+    # coordinate aliases of other methods (symmetrize: X/E, Y/N, Z/U), capitals of the virtual names, near-misses of the
+    # reserved names, a name that is a prefix of another, digits, '#', non-ASCII, blanks, operator / separator
+    # characters, the empty string; each is a legal feature name for createAnalyticalFeature
+    SPECIAL = ["X", "Y", "Z", "T", "E", "N", "U", "A", "ab", "a1", "7", "idx2", "xx", "tt", "timestamp2", "IDX",
+               "#", "#1", "a#", "\u00e9", "\u03b8v", "\u901f", " ", "a b", "a+b", "a:b", "a,b", "x ", "~a;|", "ds", "abs_curv", "speed"]
+    EMPTY = ""
+    pool = None          # names of the current case (None: the default small alphabet)
+    rich = False         # wider operator alphabet (new operator kinds, expression operators / ^ % < > >> << F{})
 
     def rand_name(self, rng, out=False):
+        if self.pool is not None:
+            r = rng.random()
+            if r < 0.88:
+                return rng.choice(self.pool)
+            if r < 0.95:
+                return rng.choice(["x", "y", "z", "idx"] if not out else ["x", "y", "z", "t", "timestamp", "idx"])
+            return "zz"
         r = rng.random()
         if r < 0.86:
             return rng.choice(self.NAMES[:3] if rng.random() < 0.75 else self.NAMES)
@@ -593,6 +907,13 @@ class P(Prop):
         return "zz"
 
     def rand_in(self, rng):
+        if self.pool is not None:
+            r = rng.random()
+            if r < 0.82:
+                return rng.choice(self.pool)
+            if r < 0.95:
+                return rng.choice(["x", "y", "z", "t", "idx"])
+            return "zz"
         r = rng.random()
         if r < 0.8:
             return rng.choice(self.NAMES[:3] if rng.random() < 0.8 else self.NAMES)
@@ -606,48 +927,103 @@ class P(Prop):
     def rand_init(self, rng, n):
         if rng.random() < 0.5:
             return ["s", self.rand_val(rng)]
-        extra = rng.choice([0, 0, 0, 1])
+        extra = rng.choice([0, 0, 0, 1]) if (n == 0 or rng.random() < 0.95) else -rng.randrange(1, n + 1)   # sometimes too short
         return ["l", [self.rand_val(rng) for _ in range(n + extra)]]
 
+    def expr_pool(self):
+        if self.pool is None:
+            return ["a", "b", "c"]
+        l = [x for x in self.pool if expr_safe(x) and not x.startswith("#")]
+        return l or ["a"]
+
     def rand_expr(self, rng):
+        names = self.expr_pool()
+
         def operand():
             r = rng.random()
             if r < 0.62:
-                return rng.choice(["a", "b", "c"])
+                return rng.choice(names)
             if r < 0.77:
                 return str(rng.randrange(0, 5))
-            if r < 0.92:
+            if r < 0.95:
                 return rng.choice(["x", "y", "z", "t", "idx"])
             return "nosuch"
 
-        def term():
+        def rich_atom(depth=0):
+            """a parenthesised use of one of the operators / ^ % < > >> << or a function call"""
+            r = rng.random()
+            if r < 0.30:
+                return "(" + operand() + rng.choice(["/", "/", "%", "^", "<", ">"]) + operand() + ")"
+            if r < 0.42:
+                return "(" + rng.choice(names + ["x", "idx"]) + rng.choice([">>", "<<"]) + str(rng.randrange(0, 4)) + ")"
+            if r < 0.50:
+                return "(" + operand() + rng.choice([">>", "<<"]) + operand() + ")"
+            inner = operand() if (depth > 0 or rng.random() < 0.6) else term(depth + 1)
+            if r < 0.85:
+                return rng.choice(VOID_FN[:8] if rng.random() < 0.9 else VOID_FN) + "{" + inner + "}"
+            if r < 0.97:
+                return rng.choice(AGG_FN) + "{" + inner + "}"
+            return rng.choice(["D2", "MEDIAN", "NOFN"]) + "{" + inner + "}"
+
+        def factor(depth=0):
+            if self.rich and rng.random() < 0.38:
+                return rich_atom(depth)
+            return operand()
+
+        def term(depth=0):
             r = rng.random()
             if r < 0.55:
-                return operand()
+                return factor(depth)
             if r < 0.85:
-                return operand() + "*" + operand()
-            return "(" + operand() + rng.choice("+-") + operand() + ")*" + operand()
+                return factor(depth) + rng.choice("**/" if self.rich else "*") + factor(depth)
+            return "(" + factor(depth) + rng.choice("+-") + factor(depth) + ")*" + factor(depth)
         if rng.random() < 0.08:
-            nm = rng.choice(["a", "b", "c", "x", "y", "z"])
+            nm = rng.choice(names + ["x", "y", "z"])
             return nm + "=" + rng.choice([nm, nm + "+0", nm + "*1", "0+" + nm, "(" + nm + ")"])
         if rng.random() < 0.04:
             # a coordinate (or a feature) assigned a right-hand side that folds to a number
             k = str(rng.randrange(0, 5))
-            return rng.choice(["x", "y", "z", "x", "y", "z", "a", "t"]) + "=" + rng.choice([k, k + "+2", "2*" + k, "(" + k + "-1)*3"])
+            return rng.choice(["x", "y", "z", "x", "y", "z", names[0], "t"]) + "=" + rng.choice([k, k + "+2", "2*" + k, "(" + k + "-1)*3"])
         k = rng.choice([1, 1, 2, 2, 3])
         s = term()
         for _ in range(k - 1):
             s += rng.choice("+-") + term()
         r = rng.random()
         if r < 0.7:
-            lhs = rng.choice(["a", "b", "c"])
+            lhs = rng.choice(names)
         elif r < 0.8:
             lhs = rng.choice(["x", "y", "z", "idx"])
         else:
             return s
         return lhs + "=" + s
 
+    BKINDS = ["add", "sub", "mul"]
+    BKINDS_RICH = ["add", "sub", "mul", "div", "pow", "mod", "above", "below"]
+    SKINDS = ["add", "sub", "rsub", "mul"]
+    SKINDS_RICH = ["add", "sub", "rsub", "mul", "pow", "rpow", "mod", "rmod", "above", "below", "rabove", "rbelow"]
+
     def rand_op(self, rng, n):
+        r = rng.random()
+        if self.rich and r < 0.30:
+            # the wider alphabet: operator objects of every family, helpers that create features
+            q = rng.random()
+            out = rng.choice([None, self.rand_name(rng, True), self.rand_name(rng, True)])
+            if q < 0.22:
+                return ["bvoid", rng.choice(self.BKINDS_RICH[3:]), self.rand_in(rng), self.rand_in(rng), out]
+            if q < 0.44:
+                return ["svoid", rng.choice(self.SKINDS_RICH[4:]), self.rand_in(rng), self.rand_val(rng), out]
+            if q < 0.58:
+                v = self.rand_val(rng) if rng.random() < 0.8 else rng.choice([0, 0.5, -1.5])
+                return ["sk", rng.choice(["div", "rdiv", "shift", "shiftr"]), self.rand_in(rng), v, out]
+            if q < 0.78:
+                return ["ufn", rng.choice(VOID_FN), self.rand_in(rng), out]
+            if q < 0.86:
+                return ["aggf", rng.choice(AGG_FN), self.rand_in(rng)]
+            if q < 0.91:
+                return ["abscurv"]
+            if q < 0.95:
+                return ["estspeed", rng.choice("mf")]
+            return ["seg", self.rand_in(rng), self.rand_name(rng, True), rng.randrange(-5, 6)]
         r = rng.random()
         if r < 0.16:
             return ["create", self.rand_name(rng, True)] + self.rand_init(rng, n)
@@ -668,15 +1044,17 @@ class P(Prop):
         if r < 0.67:
             return ["uvoid", rng.choice(["int", "dif"]), self.rand_in(rng), rng.choice([None, self.rand_name(rng, True)])]
         if r < 0.74:
-            return ["bvoid", rng.choice(["add", "sub", "mul"]), self.rand_in(rng), self.rand_in(rng),
+            return ["bvoid", rng.choice(self.BKINDS), self.rand_in(rng), self.rand_in(rng),
                     rng.choice([None, self.rand_name(rng, True), self.rand_name(rng, True)])]
         if r < 0.80:
-            return ["svoid", rng.choice(["add", "sub", "rsub", "mul"]), self.rand_in(rng), self.rand_val(rng),
+            return ["svoid", rng.choice(self.SKINDS), self.rand_in(rng), self.rand_val(rng),
                     rng.choice([None, self.rand_name(rng, True), self.rand_name(rng, True)])]
         if r < 0.82:
             return ["sum", self.rand_in(rng)]
         if r < 0.875 and n > 0:
             q = rng.random()
+            if self.rich:
+                q = 0.45 + 0.55 * q        # CONVOLUTION / FILTER_FFT store numpy scalars, whose / ** % never raise: kept apart from the operators that do
             out = rng.choice([None, self.rand_name(rng, True), self.rand_name(rng, True)])
             if q < 0.25:
                 return ["conv", self.rand_in(rng), self.rand_in(rng), out]
@@ -693,8 +1071,23 @@ class P(Prop):
                 return ["agg", kind, self.rand_in(rng), self.rand_in(rng)]
             return ["agg", kind, self.rand_in(rng)]
         s = self.rand_expr(rng)
-        # track["…"] is routed to operate() only when the string contains an operator character
-        return ["expr", s, rng.choice("mmg") if any(ch in s for ch in "+-*()=") else "m"]
+        # track["…"] is routed to operate() only when the string contains one of + - / * ^ > < ( ) = ' {
+        return ["expr", s, rng.choice("mmg") if any(ch in s for ch in "+-/*^><()={") else "m"]
+
+    def rand_pool(self, rng):
+        """the names of one history: two or three ordinary ones and two or three special ones, so that they collide"""
+        k = rng.choice([2, 2, 3])
+        sp = rng.sample(self.SPECIAL, k)
+        if rng.random() < 0.07:
+            sp[0] = self.EMPTY
+        return rng.sample(["a", "b", "c"], rng.choice([1, 2])) + sp + (["#0"] if rng.random() < 0.15 else [])
+
+    def gen_history(self, rng, n, depth, pool, rich):
+        self.pool, self.rich = pool, rich
+        try:
+            return [self.rand_op(rng, n) for _ in range(depth)]
+        finally:
+            self.pool, self.rich = None, False
 
     def cases(self, rng, tier):
         out = []
@@ -708,24 +1101,69 @@ class P(Prop):
             for op in A:
                 rec(prefix + [op], k - 1)
         rec([], d)
-        nrand = 4000 if tier == "quick" else 60000
-        for _ in range(nrand):
+        q = tier == "quick"
+        for _ in range(2500 if q else 30000):
             n = rng.choice([1, 2, 2, 3, 3, 4])
             depth = rng.choice([3, 6, 10, 20, 40])
-            out.append({"kind": "rand", "n": n, "ops": [self.rand_op(rng, n) for _ in range(depth)]})
-        # malformed stream: a list initialiser shorter than the track, as the LAST call (Python raises mid-way
-        # and leaves a misaligned table: outside the property's domain, correspondence only)
-        for _ in range(300 if tier == "quick" else 3000):
+            out.append({"kind": "rand", "n": n, "ops": self.gen_history(rng, n, depth, None, False)})
+        # every special name as a user feature: all write paths and all read paths under it
+        for _ in range(3500 if q else 20000):
+            n = rng.choice([1, 2, 2, 3, 3, 4])
+            depth = rng.choice([2, 4, 8, 14, 25])
+            pool = self.rand_pool(rng)
+            out.append({"kind": "names", "n": n, "pool": pool, "ops": self.gen_history(rng, n, depth, pool, rng.random() < 0.4)})
+        # the wider operator alphabet on ordinary names (operators that raise mid-way included)
+        for _ in range(3500 if q else 20000):
+            n = rng.choice([1, 2, 2, 3, 3, 4, 5])
+            depth = rng.choice([2, 4, 8, 14, 25])
+            out.append({"kind": "rich", "n": n, "pool": ["a", "b", "c"], "ops": self.gen_history(rng, n, depth, ["a", "b", "c"], True)})
+        # tracks that receive their table from another track: copy(), extract, slice, +
+        for _ in range(900 if q else 5000):
+            out.append(self.gen_carry(rng))
+        # a list initialiser shorter than the track in the middle of a history: refused (IndexError) before anything is
+        # written when the name is new (fix 2976f2b), a partial overwrite of an existing feature otherwise
+        for _ in range(300 if q else 3000):
             n = rng.choice([2, 3, 4])
-            depth = rng.choice([0, 2, 5])
-            ops = [self.rand_op(rng, n) for _ in range(depth)]
+            ops = self.gen_history(rng, n, rng.choice([0, 2, 5]), None, False)
             short = [self.rand_val(rng) for _ in range(rng.randrange(0, n))]
             ops.append([rng.choice(["create", "update", "setitem"]), rng.choice(["a", "b", "c"]), "l", short])
-            out.append({"kind": "malformed", "n": n, "ops": ops})
+            ops += self.gen_history(rng, n, rng.choice([1, 3]), None, False)
+            out.append({"kind": "short", "n": n, "ops": ops})
         # empty track
-        for _ in range(100 if tier == "quick" else 1000):
-            out.append({"kind": "empty", "n": 0, "ops": [self.rand_op(rng, 0) for _ in range(rng.choice([1, 3, 6]))]})
+        for _ in range(100 if q else 1000):
+            out.append({"kind": "empty", "n": 0, "ops": self.gen_history(rng, 0, rng.choice([1, 3, 6]), None, rng.random() < 0.3)})
         return out
+
+    def gen_carry(self, rng):
+        n = rng.choice([2, 3, 3, 4, 5])
+        pool = ["a", "b", "c"] if rng.random() < 0.7 else self.rand_pool(rng)
+        rich = rng.random() < 0.3          # one alphabet for the whole case: numpy-valued operators and raising arithmetic stay apart
+        pre = self.gen_history(rng, n, rng.choice([1, 2, 3, 5]), pool, rich)
+        r = rng.random()
+        if r < 0.25:
+            carry = ["copy"]
+        elif r < 0.5:
+            i = rng.randrange(0, n)
+            carry = ["extract", i, rng.randrange(i, n)]
+        elif r < 0.7:
+            i = rng.randrange(0, n)
+            carry = ["slice", i, rng.randrange(i + 1, n + 1)]
+        else:
+            # t + t2 where t2 went through the same calls (same feature list) or, rarely, through others
+            m = rng.choice([1, 2, 3])
+
+            def resize(op):
+                if op[0] in ("create", "update", "setitem") and op[2] == "l":
+                    return op[:3] + [(list(op[3]) * (m + 1) + [1] * (m + 1))[:m + max(0, len(op[3]) - n)]]
+                return op
+            if rng.random() < 0.85:
+                carry = ["plus", m, [resize(op) for op in pre], "same"]
+            else:
+                carry = ["plus", m, self.gen_history(rng, m, rng.choice([0, 1, 2]), pool, rich), "other"]
+        dn = {"copy": n, "extract": carry[2] - carry[1] + 1 if carry[0] == "extract" else 0,
+              "slice": carry[2] - carry[1] if carry[0] == "slice" else 0, "plus": n + (carry[1] if carry[0] == "plus" else 0)}[carry[0]]
+        ops = self.gen_history(rng, dn, rng.choice([1, 2, 4, 8]), pool, rich)
+        return {"kind": "carry", "n": n, "pool": pool, "pre": pre, "carry": carry, "ops": ops}
 
     def describe(self, case):
         t = {"kind": case["kind"], "n": case["n"], "depth": len(case["ops"])}
@@ -812,6 +1250,22 @@ class P(Prop):
             return t.operate(self.SOPS[op[1]], op[2], fv(op[3]), op[4])
         if k == "sum":
             return t.operate(self.Operator.SUM, op[1])
+        if k == "sk":
+            if op[4] is None:
+                return t.operate(self.SKOPS[op[1]], op[2], fv(op[3]))
+            return t.operate(self.SKOPS[op[1]], op[2], fv(op[3]), op[4])
+        if k == "ufn":
+            if op[3] is None:
+                return t.operate(self.FNOPS[op[1]], op[2])
+            return t.operate(self.FNOPS[op[1]], op[2], op[3])
+        if k == "aggf":
+            return t.operate(self.AGGOPS[op[1]], op[2])
+        if k == "abscurv":
+            return self.computeAbsCurv(t)
+        if k == "estspeed":
+            return t.estimate_speed() if op[1] == "m" else self.estimate_speed(t)
+        if k == "seg":
+            return self.segmentation(t, op[1], op[2], fv(op[3]))
         O = self.Operator
         if k == "conv":
             return t.operate(O.CONVOLUTION, op[1], op[2]) if op[3] is None else t.operate(O.CONVOLUTION, op[1], op[2], op[3])
@@ -851,7 +1305,9 @@ class P(Prop):
                 return "err:unknown"
             return "err:af"
         return {"KeyError": "err:key", "IndexError": "err:index", "ValueError": "err:value", "TypeError": "err:type",
-                "SystemExit": "err:exit"}.get(nm, "err:" + nm)
+                "SystemExit": "err:exit", "ZeroDivisionError": "err:value", "OverflowError": "err:value"}.get(nm, "err:" + nm)
+
+    ROUTED = set("+-/*^><()='{")       # '{' since fix 396f8f9
 
     def observe(self, t):
         names = list(t.getListAnalyticalFeatures())
@@ -862,8 +1318,20 @@ class P(Prop):
                 c = [canon(v) for v in t.getAnalyticalFeature(nm)]
                 cols[nm] = c
                 for i in range(len(c)):
-                    if not close(canon(t.getObsAnalyticalFeature(nm, i)), c[i]) or not close(canon(t[nm, i]), c[i]):
-                        cells_ok = False
+                    # every per-observation read path: method, track[name, i], track[i, name], list form
+                    if not (close(canon(t.getObsAnalyticalFeature(nm, i)), c[i]) and close(canon(t[nm, i]), c[i])
+                            and close(canon(t[i, nm]), c[i]) and close(canon(t.getObsAnalyticalFeatures([nm], i)[0]), c[i])):
+                        cells_ok = "cell %d of %r: column read %r, per-observation reads %r %r %r" % (
+                            i, nm, c[i], canon(t.getObsAnalyticalFeature(nm, i)), canon(t[nm, i]), canon(t[i, nm]))
+                        break
+                # whole-column read paths: list form, and the bracket when the string is not routed to the evaluator
+                if not close([canon(v) for v in t.getAnalyticalFeatures([nm])[0]], c):
+                    cells_ok = "getAnalyticalFeatures([%r]) differs from getAnalyticalFeature" % nm
+                if nm and nm == nm.strip() and not (set(nm) & self.ROUTED):
+                    if not close([canon(v) for v in t[nm]], c):
+                        cells_ok = "track[%r] differs from getAnalyticalFeature" % nm
+                if not t.hasAnalyticalFeature(nm):
+                    cells_ok = "hasAnalyticalFeature(%r) is False for a listed name" % nm
             except BaseException as e:
                 cols[nm] = self.err_of(e)
         bad = []
@@ -873,12 +1341,31 @@ class P(Prop):
                     bad.append([i, j, type(v).__name__])
         return {"names": names, "cols": cols, "rowlens": [len(o.features) for o in t.getObsList()], "bad_cells": bad,
                 "X": [canon(v) for v in t.getX()], "Y": [canon(v) for v in t.getY()], "Z": [canon(v) for v in t.getZ()],
-                "T": [canon(v) for v in t.getT()], "cells_ok": cells_ok}
+                "T": [canon(v) for v in t.getT()],
+                "cells_ok": cells_ok}
 
-    def impl(self, case):
-        t = self.mk_track(case["n"])
+    def final_reads(self, t):
+        """read every listed feature through an operator and through an expression (these paths write
+        temporaries, so they are taken once, after the last call of the history)"""
+        out = {}
+        names = list(t.getListAnalyticalFeatures())
+        for nm in names:
+            rec = {}
+            try:
+                rec["agg"] = [canon(v) for v in t.operate(self.Operator.AGGREGATE, nm, list)]
+            except BaseException as e:
+                rec["agg"] = self.err_of(e)
+            if expr_safe(nm) and not nm.startswith("#") and not any(x.startswith("#") for x in names):
+                try:
+                    rec["expr"] = [canon(v) for v in t.operate("0+" + nm)]
+                except BaseException as e:
+                    rec["expr"] = self.err_of(e)
+            out[nm] = rec
+        return out
+
+    def run_ops(self, t, ops):
         steps = []
-        for op in case["ops"]:
+        for op in ops:
             try:
                 r = self.call(t, op)
                 out = "ok"
@@ -895,7 +1382,55 @@ class P(Prop):
             ob = self.observe(t)
             ob["out"], ob["ret"] = out, ret
             steps.append(ob)
+        return steps
+
+    def derive(self, case, t):
+        c = case["carry"]
+        if c[0] == "copy":
+            return t.copy()
+        if c[0] == "extract":
+            return t.extract(c[1], c[2])
+        if c[0] == "slice":
+            return t[c[1]:c[2]]
+        t2 = self.Track([], 1)
+        for i in range(c[1]):
+            t2.addObs(self.Obs(self.ENU(50.0 + i, 60.0 + 2 * i, 70.0 + 3 * i), self.ObsTime.readUnixTime(2000 + i)))
+        for op in c[2]:
+            try:
+                self.call(t2, op)
+            except BaseException as e:
+                if isinstance(e, KeyboardInterrupt):
+                    raise
+        self._t2 = t2
+        return t + t2
+
+    def impl(self, case):
+        t = self.mk_track(case["n"])
+        if case["kind"] == "carry":
+            pre = self.run_ops(t, case["pre"])
+            self._t2 = None
+            try:
+                d = self.derive(case, t)
+            except BaseException as e:
+                if isinstance(e, KeyboardInterrupt):
+                    raise
+                return {"pre": pre, "carry_err": self.err_of(e), "steps": []}
+            src0 = self.observe(t)
+            other0 = self.observe(self._t2) if self._t2 is not None else None
+            first = self.observe(d)
+            steps = self.run_ops(d, case["ops"])
+            res = {"pre": pre, "first": first, "steps": steps, "src_before": src0, "src_after": self.observe(t),
+                   "other_before": other0, "other_after": self.observe(self._t2) if self._t2 is not None else None,
+                   "final": self.final_reads(d)}
+            self._t2 = None
+            if len(self._impl_cache) > 2000:
+                self._impl_cache.clear()
+            self._impl_cache[self.ckey(case)] = res
+            return res
+        steps = self.run_ops(t, case["ops"])
         res = {"steps": steps}
+        if case["kind"] in ("names", "rich", "corpus"):
+            res["final"] = self.final_reads(t)
         if any(op[0] in self.OPAQUE for op in case["ops"]):
             if len(self._impl_cache) > 2000:
                 self._impl_cache.clear()
@@ -910,7 +1445,7 @@ class P(Prop):
     def ckey(case):
         return hashlib.sha1(json.dumps(case, sort_keys=True).encode()).hexdigest()
 
-    def opaque_vals(self, case):
+    def opaque_vals(self, case, which="ops"):
         """per step: the list returned by the implementation for an opaque operator ([] when it raised / returned junk)"""
         key = self.ckey(case)
         res = self._impl_cache.get(key)
@@ -918,8 +1453,10 @@ class P(Prop):
             from engine import _Silence
             with _Silence():
                 res = self.impl(case)
+            self._impl_cache[key] = res
         out = {}
-        for k, (op, st) in enumerate(zip(case["ops"], res["steps"])):
+        steps = res["steps"] if which == "ops" else res.get("pre", [])
+        for k, (op, st) in enumerate(zip(case[which], steps)):
             if op[0] in self.OPAQUE:
                 r = st["ret"]
                 ok = st["out"] == "ok" and r != "-" and r[0] == "c" and all(isinstance(v, float) for v in r[1])
@@ -929,52 +1466,110 @@ class P(Prop):
     # ---------------------------------------------------------------- model
     def op_token(self, op, vals=None):
         k = op[0]
+        o = lambda x: enc(x) if x is not None else ""
         if k in self.OPAQUE:
             out = list(op_targets(op))[0]
             cols = {"conv": [op[1], op[2]], "fft": [op[1]]}.get(k, [])
             cells = {"apply": [op[2]], "shiftc": [op[1]]}.get(k, [])
-            return "opq:%s:%s:%s:%s" % (",".join(cols) or "_", ",".join(cells) or "_", out,
+            return "opq:%s:%s:%s:%s" % (enc_list(cols), enc_list(cells), enc(out),
                                         ",".join(fbits(v) for v in vals) if vals else "_")
         if k == "rev":
-            return "rev:%s:%s" % (op[1], op[2] or "")
+            return "rev:%s:%s" % (enc(op[1]), o(op[2]))
         if k == "agg":
             if op[1] == "median":
-                return "probe:%s:_" % op[2]
-            return "probe:_:%s" % ",".join(op[2:])
+                return "probe:%s:_" % enc(op[2])
+            return "probe:_:%s" % enc_list(op[2:])
         if k in ("create", "update", "setitem"):
-            return "%s:%s:%s:%s" % (k, op[1], op[2], tokf(op[3]) if op[2] == "s" else tokl(op[3]))
+            return "%s:%s:%s:%s" % (k, enc(op[1]), op[2], tokf(op[3]) if op[2] == "s" else tokl(op[3]))
         if k == "remove":
-            return "remove:%s" % op[1]
+            return "remove:%s" % enc(op[1])
         if k == "setobs":
-            return "setobs:%s:%d:%s" % (op[1], op[2], tokf(op[3]))
+            return "setobs:%s:%d:%s" % (enc(op[1]), op[2], tokf(op[3]))
         if k == "addaf":
             alg = op[2]
             if alg[0] == "const":
-                return "addaf:%s:const:%s" % (op[1], tokf(alg[1]))
+                return "addaf:%s:const:%s" % (enc(op[1]), tokf(alg[1]))
             if alg[0] == "affine":
-                return "addaf:%s:affine:%s:%s" % (op[1], tokf(alg[1]), tokf(alg[2]))
+                return "addaf:%s:affine:%s:%s" % (enc(op[1]), tokf(alg[1]), tokf(alg[2]))
             if alg[0] == "nextx":
-                return "addaf:%s:nextx" % op[1]
-            return "addaf:%s:feat:%s:%s" % (op[1], alg[1], tokf(alg[2]))
+                return "addaf:%s:nextx" % enc(op[1])
+            return "addaf:%s:feat:%s:%s" % (enc(op[1]), enc(alg[1]), tokf(alg[2]))
         if k == "uvoid":
-            return "uvoid:%s:%s:%s" % (op[1], op[2], op[3] or "")
+            return "uvoid:%s:%s:%s" % (op[1], enc(op[2]), o(op[3]))
         if k == "bvoid":
-            return "bvoid:%s:%s:%s:%s" % (op[1], op[2], op[3], op[4] or "")
-        if k == "svoid":
-            return "svoid:%s:%s:%s:%s" % (op[1], op[2], tokf(op[3]), op[4] or "")
+            return "bvoid:%s:%s:%s:%s" % (op[1], enc(op[2]), enc(op[3]), o(op[4]))
+        if k in ("svoid", "sk"):
+            return "%s:%s:%s:%s:%s" % (k, op[1], enc(op[2]), tokf(op[3]), o(op[4]))
+        if k == "ufn":
+            return "ufn:%s:%s:%s" % (op[1], enc(op[2]), o(op[3]))
+        if k == "aggf":
+            return "aggf:%s:%s" % (op[1], enc(op[2]))
         if k == "sum":
-            return "sum:%s" % op[1]
+            return "sum:%s" % enc(op[1])
+        if k == "abscurv":
+            return "abscurv"
+        if k == "estspeed":
+            return "estspeed"
+        if k == "seg":
+            return "seg:%s:%s:%s" % (enc(op[1]), enc(op[2]), tokf(op[3]))
         if k == "expr":
-            return "expr:" + ",".join(expr_rpn(op[1]))
+            return "expr:" + ",".join(t if (t in "=+-*/^@&$<>%!" or t.isdigit() and t.isascii()) else enc(t) for t in expr_rpn(op[1]))
         raise ValueError(k)
 
+    def cached_impl(self, case):
+        key = self.ckey(case)
+        res = self._impl_cache.get(key)
+        if res is None:
+            from engine import _Silence
+            with _Silence():
+                res = self.impl(case)
+            if len(self._impl_cache) > 2000:
+                self._impl_cache.clear()
+            self._impl_cache[key] = res
+        return res
+
+    def body(self, case, which):
+        ops = case[which]
+        ov = self.opaque_vals(case, which) if any(op[0] in self.OPAQUE for op in ops) else {}
+        return " ".join(self.op_token(op, ov.get(k)) for k, op in enumerate(ops))
+
+    @staticmethod
+    def carried_table(first):
+        """the table the derived track starts with, as the implementation shows it - None when it is not a table
+        (misaligned, unreadable): then there is nothing for the model to start from"""
+        names = first["names"]
+        if len(set(names)) != len(names) or any(l != len(names) for l in first["rowlens"]):
+            return None
+        for nm in names:
+            c = first["cols"].get(nm)
+            if not isinstance(c, list) or not all(isinstance(v, float) for v in c) or len(c) != len(first["X"]):
+                return None
+        for cn in "XYZT":
+            if not all(isinstance(v, float) for v in first[cn]):
+                return None
+        return names
+
     def requests(self, case):
-        if not case["ops"]:
-            return []
         tb = Tab(case["n"])
         head = " ".join(tokl(c) for c in (tb.X, tb.Y, tb.Z, tb.T))
-        ov = self.opaque_vals(case) if any(op[0] in self.OPAQUE for op in case["ops"]) else {}
-        body = " ".join(self.op_token(op, ov.get(k)) for k, op in enumerate(case["ops"]))
+        if case["kind"] == "carry":
+            res = self.cached_impl(case)
+            out = []
+            if case["pre"]:
+                b = self.body(case, "pre")
+                out += ["C01.run %s %s" % (head, b), "C01.arun %s %s" % (head, b)]
+            if "first" in res and case["ops"] and res["first"]["X"]:
+                names = self.carried_table(res["first"])
+                if names is not None:
+                    f = res["first"]
+                    h2 = " ".join(tokl(f[c]) for c in "XYZT")
+                    tbl = "%s %s" % (enc_list(names), ";".join(tokl(f["cols"][nm]) for nm in names) if names else "_")
+                    b = self.body(case, "ops")
+                    out += ["C01.runi %s %s %s" % (h2, tbl, b), "C01.aruni %s %s %s" % (h2, tbl, b)]
+            return out
+        if not case["ops"]:
+            return []
+        body = self.body(case, "ops")
         return ["C01.run %s %s" % (head, body), "C01.arun %s %s" % (head, body)]
 
     @staticmethod
@@ -985,7 +1580,7 @@ class P(Prop):
 
         def floats(s):
             return [] if s == "_" else [bitsf(x) for x in s.split(",")]
-        names = [] if f[2] == "_" else f[2].split(",")
+        names = [] if f[2] == "_" else [dec(x) for x in f[2].split(",")]
         colstr = [] if f[3] == "_" else f[3].split(";")
         if len(names) == 1 and f[3] == "_":
             colstr = ["_"]
@@ -1003,13 +1598,22 @@ class P(Prop):
                 "X": floats(f[5]), "Y": floats(f[6]), "Z": floats(f[7]), "T": floats(f[8])}
 
     def decode(self, case, replies):
-        if not case["ops"]:
-            return {"steps": [], "asteps": []}
         for r in replies:
             if r == "bad-request":
                 raise ValueError("driver refused the request")
-        return {"steps": [self.parse_block(b) for b in replies[0].split(" ")],
-                "asteps": [self.parse_block(b) for b in replies[1].split(" ")]}
+        blocks = [[self.parse_block(b) for b in r.split(" ")] for r in replies]
+        if case["kind"] == "carry":
+            out = {"pre": None, "apre": None, "steps": None, "asteps": None}
+            k = 0
+            if case["pre"]:
+                out["pre"], out["apre"] = blocks[0], blocks[1]
+                k = 2
+            if len(blocks) > k:
+                out["steps"], out["asteps"] = blocks[k], blocks[k + 1]
+            return out
+        if not case["ops"]:
+            return {"steps": [], "asteps": []}
+        return {"steps": blocks[0], "asteps": blocks[1]}
 
     @staticmethod
     def same_ret(op, a, b):
@@ -1039,40 +1643,50 @@ class P(Prop):
                 return "%s impl=%s model=%s" % (c, si[c], sm[c])
         return None
 
+    @classmethod
+    def bracket_routed(cls, name):
+        """track[name] does not read the feature `name`: the string is stripped, and routed to the evaluator when it
+        contains one of + - / * ^ > < ( ) = ' {"""
+        return name != name.strip() or bool(set(name) & cls.ROUTED)
+
+    def compare_ops(self, ops, isteps, msteps, asteps, label=""):
+        if not (len(isteps) == len(msteps) == len(asteps) == len(ops)):
+            return "number of steps differs%s" % label
+        for k, op in enumerate(ops):
+            if msteps[k]["out"] == "unsupported" or asteps[k]["out"] == "unsupported":
+                return None                # the call is outside the model (complex power, FILTER, D2 ...): the rest of the history is not compared
+            d = self.diff_step(op, isteps[k], msteps[k])
+            if d:
+                return "%sstep %d %s: %s" % (label, k, op, d)
+            d = self.diff_step(op, isteps[k], asteps[k], with_rows=True)
+            if d:
+                return "%sstep %d %s (specification table): %s" % (label, k, op, d)
+        return None
+
     def compare(self, case, impl_out, model_out):
         if "err" in impl_out:
             return "implementation harness raised %s" % impl_out
-        ops = case["ops"]
-        if not (len(impl_out["steps"]) == len(model_out["steps"]) == len(model_out["asteps"]) == len(ops)):
-            return "number of steps differs"
-        for k, op in enumerate(ops):
-            d = self.diff_step(op, impl_out["steps"][k], model_out["steps"][k])
-            if d:
-                return "step %d %s: %s" % (k, op, d)
-            if case["kind"] == "malformed" and k == len(ops) - 1:
-                continue                   # the specification table does not describe a misaligned table
-            d = self.diff_step(op, impl_out["steps"][k], model_out["asteps"][k], with_rows=True)
-            if d:
-                return "step %d %s (specification table): %s" % (k, op, d)
-        return None
+        if case["kind"] == "carry":
+            if case["pre"]:
+                d = self.compare_ops(case["pre"], impl_out["pre"], model_out["pre"], model_out["apre"], "source track, ")
+                if d:
+                    return d
+                if any(st["out"] == "unsupported" for st in model_out["pre"]):
+                    return None
+            if model_out["steps"] is None:
+                return None                # nothing carried that the model could start from (reported by the oracle if it is a defect)
+            return self.compare_ops(case["ops"], impl_out["steps"], model_out["steps"], model_out["asteps"], "derived track, ")
+        return self.compare_ops(case["ops"], impl_out["steps"], model_out["steps"], model_out["asteps"])
 
     # ---------------------------------------------------------------- oracle (transfer)
     def spec(self, case, out):
-        if "err" in out:
-            return "harness could not run the history: %s" % out
-        n = case["n"]
-        tab = Tab(n)
-        ops = case["ops"]
+        return self.spec_(case, out)
+
+    def spec_ops(self, tab, ops, steps, label=""):
+        n = tab.n
         for k, op in enumerate(ops):
-            if case["kind"] == "malformed" and k == len(ops) - 1:
-                if self.SHORT_LIST_IS_FINDING:
-                    ob = out["steps"][k]
-                    if any(l != len(ob["names"]) for l in ob["rowlens"]):
-                        return "after call %d %s (%s): %d names listed but the observations carry %s values" % (
-                            k, op, ob["out"], len(ob["names"]), ob["rowlens"])
-                return None                # list initialiser shorter than the track: outside the property's domain
-            ob = out["steps"][k]
-            where = "after call %d %s (%s): " % (k, op, ob["out"])
+            ob = steps[k]
+            where = "%safter call %d %s (%s): " % (label, k, op, ob["out"])
             names = ob["names"]
             # every observation carries exactly one value per listed name
             if len(set(names)) != len(names):
@@ -1085,8 +1699,8 @@ class P(Prop):
                     return where + "reading the listed feature %r raises %s" % (nm, c)
                 if len(c) != n:
                     return where + "feature %r reads %d values on a track of %d" % (nm, len(c), n)
-            if not ob["cells_ok"]:
-                return where + "reading a feature cell by cell differs from reading the column"
+            if ob["cells_ok"] is not True:
+                return where + "a read path does not return what the column read returns: %s" % (ob["cells_ok"],)
             if op[0] == "expr" and any(nm.startswith("#") for nm in names):
                 return where + "evaluator temporaries remain listed: %s" % [nm for nm in names if nm.startswith("#")]
             if ob["bad_cells"]:
@@ -1119,7 +1733,6 @@ class P(Prop):
                             close_scaled(r[1], e["ret"][1]) if e["scaled"] else close(r[1], e["ret"][1]))
                         if not good:
                             return where + "returned %s, expected %s" % (r, e["ret"])
-                free = set()
             else:
                 # failed call, or a call the oracle has no expectation for: only its target may have changed
                 free = set(tg)
@@ -1145,30 +1758,130 @@ class P(Prop):
                     return where + "%s is %s, expected %s" % (cn, ob[cn], getattr(tab, cn))
         return None
 
+    def spec_final(self, tab, out, label=""):
+        """the read paths through an operator and through an expression return the column too"""
+        for nm, rec in (out.get("final") or {}).items():
+            want = tab.cols.get(nm)
+            if want is None or not all(isinstance(v, float) for v in want):
+                continue
+            for path, what in (("agg", "operate(AGGREGATE, %r, list)" % nm), ("expr", "operate('0+%s')" % nm)):
+                if path in rec:
+                    got = rec[path]
+                    if path == "expr" and not finite([v for v in want if v == v]):
+                        continue
+                    if not close(got, want):
+                        return "%safter the last call: %s reads %s, feature %r was last written %s" % (label, what, got, nm, want)
+        return None
+
+    @staticmethod
+    def same_obs(a, b):
+        return (a["names"] == b["names"] and a["rowlens"] == b["rowlens"] and close(a["cols"], b["cols"])
+                and all(close(a[c], b[c]) for c in "XYZT"))
+
+    def spec_(self, case, out):
+        if "err" in out:
+            return "harness could not run the history: %s" % out
+        n = case["n"]
+        tab = Tab(n)
+        if case["kind"] != "carry":
+            msg = self.spec_ops(tab, case["ops"], out["steps"])
+            if msg:
+                return msg
+            return self.spec_final(tab, out)
+        # ---- a track that receives its table from another one
+        msg = self.spec_ops(tab, case["pre"], out["pre"], "source track, ")
+        if msg:
+            return msg
+        c = case["carry"]
+        if "carry_err" in out:
+            return "%s raised %s" % (c, out["carry_err"])
+        src, first = out["src_before"], out["first"]
+        if c[0] == "copy":
+            lo, hi, m = 0, n, 0
+        elif c[0] == "extract":
+            lo, hi, m = c[1], c[2] + 1, 0
+        elif c[0] == "slice":
+            lo, hi, m = c[1], c[2], 0
+        else:
+            lo, hi, m = 0, n, c[1]
+        dt = Tab(hi - lo + m)
+        oth = out["other_before"]
+        if m and (oth is None or oth["names"] != src["names"]):
+            # the operands do not list the same features: the sum lists none, and then its observations must not carry any
+            where = "%s of tracks listing %s and %s: " % (c[:2], src["names"], oth["names"] if oth else None)
+            if first["names"]:
+                return where + "the sum lists %s" % first["names"]
+            if any(first["rowlens"]):
+                return where + "the sum lists no feature but its observations carry %s values" % first["rowlens"]
+            want_names = []
+        else:
+            want_names = list(src["names"])
+        for cn in "XYZT":
+            col = getattr(tab, cn)[lo:hi] + ((oth[cn] if oth else []) if m else [])
+            setattr(dt, cn, col)
+        for nm in want_names:
+            dt.cols[nm] = tab.cols[nm][lo:hi] + (oth["cols"][nm] if m else [])
+        where = "track derived by %s: " % (c[:3] if c[0] != "plus" else c[:2],)
+        if first["names"] != want_names:
+            return where + "lists %s, the source lists %s" % (first["names"], want_names)
+        if any(l != len(want_names) for l in first["rowlens"]):
+            return where + "%d names listed but the observations carry %s values" % (len(want_names), first["rowlens"])
+        for nm in want_names:
+            if not close(first["cols"][nm], dt.cols[nm]):
+                return where + "feature %r reads %s, the source holds %s there" % (nm, first["cols"][nm], dt.cols[nm])
+        if first["cells_ok"] is not True:
+            return where + "a read path does not return what the column read returns: %s" % (first["cells_ok"],)
+        for cn in "XYZT":
+            if not close(first[cn], getattr(dt, cn)):
+                return where + "%s is %s, expected %s" % (cn, first[cn], getattr(dt, cn))
+        msg = self.spec_ops(dt, case["ops"], out["steps"], "derived track, ")
+        if msg:
+            return msg
+        msg = self.spec_final(dt, out, "derived track, ")
+        if msg:
+            return msg
+        # feature calls on the derived track are calls on THAT track: the tables of the tracks it was made from stay as they were
+        # (coordinates of shared observations may move: that sharing is documented behaviour of slices)
+        for label, b4, af in (("source", out["src_before"], out["src_after"]), ("second operand", out["other_before"], out["other_after"])):
+            if b4 is None:
+                continue
+            if af["names"] != b4["names"] or any(l != len(af["names"]) for l in af["rowlens"]):
+                return "after the calls on the derived track the %s track lists %s and its observations carry %s values (before: %s, %s)" % (
+                    label, af["names"], af["rowlens"], b4["names"], b4["rowlens"])
+            if c[0] == "copy" and not self.same_obs(b4, af):
+                return "after the calls on the copy the %s track changed: %s -> %s" % (label, b4, af)
+        return None
+
     def classify(self, case, impl_out, msg):
-        """the only class: the failing call is create/update/bracket assignment with a list shorter than the track"""
-        ops = case.get("ops") or []
-        if case.get("kind") == "malformed" and ops and ops[-1][0] in ("create", "update", "setitem") \
-                and ops[-1][2] == "l" and len(ops[-1][3]) < case["n"]:
-            return "short-list-initialiser"
+        """two classes, both about tracks that share their Obs objects (known_findings.json): see DESIGN.md Part 0"""
+        kind = case.get("kind")
+        msg = msg or ""
+        if kind == "carry" and case["carry"][0] in ("extract", "slice", "plus") and \
+                ("after the calls on the derived track the" in msg):
+            return "derived-track-shares-observations"
+        if kind == "carry" and case["carry"][0] == "plus" and "the sum lists no feature but" in msg:
+            return "sum-of-different-feature-lists"
         return None
 
     # ---------------------------------------------------------------- shrinking / search
     def shrink(self, case):
-        ops = case["ops"]
-        if case["kind"] == "malformed":
-            return
-        for k in range(len(ops) - 1, 0, -1):
-            yield dict(case, kind="rand", ops=ops[:k])
-        for k in range(len(ops)):
-            yield dict(case, kind="rand", ops=ops[:k] + ops[k + 1:])
+        kind = "rand" if case["kind"] == "exh" else case["kind"]
+        for key in (("ops", "pre") if kind == "carry" else ("ops",)):
+            ops = case[key]
+            lo = 0 if (kind == "carry") else 1
+            for k in range(len(ops) - 1, lo - 1, -1):
+                yield dict(case, kind=kind, **{key: ops[:k]})
+            for k in range(len(ops)):
+                yield dict(case, kind=kind, **{key: ops[:k] + ops[k + 1:]})
 
     def mutate(self, case, rng):
         ops = case["ops"]
-        if case["kind"] == "malformed" or not ops:
+        if not ops:
             return
         n = case["n"]
+        kind = "rand" if case["kind"] == "exh" else case["kind"]
+        pool, rich = case.get("pool"), case["kind"] in ("rich", "names")
         for _ in range(20):
             k = rng.randrange(len(ops))
-            yield dict(case, kind="rand", ops=ops[:k] + [self.rand_op(rng, n)] + ops[k:])
-            yield dict(case, kind="rand", ops=ops + [self.rand_op(rng, n) for _ in range(3)])
+            yield dict(case, kind=kind, ops=ops[:k] + self.gen_history(rng, n, 1, pool, rich) + ops[k:])
+            yield dict(case, kind=kind, ops=ops + self.gen_history(rng, n, 3, pool, rich))
